@@ -45,6 +45,13 @@ var (
 )
 
 // keys enumerated for X.509 types and for PGP types.
+// key rsaA configured with other shapes of certificate file (relicx.BundleKeys)
+var bundleKeys = []keyDef{
+	{"rsaAmixed", "rsa2048/certificate-file-with-foreign-PEM-blocks-between-certificates", true, true},
+	{"rsaAkeyfirst", "rsa2048/certificate-file-starting-with-a-private-key-block", true, true},
+	{"rsaAstale", "rsa2048/certificate-file-with-superseded-intermediate-listed-first", true, true},
+}
+
 var x509Keys = []keyDef{keyRSA, keyP256, keyP384, keyP521, keyPGPOnly}
 var pgpKeys = []keyDef{keyRSA, keyP256, keyPGPOnly}
 
